@@ -52,6 +52,7 @@ var phaseBudgets = map[string][2]time.Duration{
 	"result-aliasing":  {15 * time.Second, 20 * time.Second},
 	"reentry-samekey":  {40 * time.Second, 80 * time.Second},
 	"traversal-hooks":  {40 * time.Second, 70 * time.Second},
+	"whole-mutators":   {45 * time.Second, 90 * time.Second},
 	"sequential":       {40 * time.Second, 70 * time.Second},
 	"lock-step":        {30 * time.Second, 60 * time.Second},
 	"oracle-lock-step": {40 * time.Second, 120 * time.Second},
